@@ -571,8 +571,10 @@ KEYS = [
 VALID_KEY_PROFILES = [
     "krumhansl_kessler",
     "kk",
+    "ks",
     "temperley",
     "tp",
+    "cmbs",
     "kostka_payne",
     "kp",
 ]
